@@ -202,6 +202,15 @@ func (w *World) installHooks() {
 			if held > 0 || g == w.rootG {
 				return
 			}
+			// the managers' event loops are not held at the task queue's points: everything the node does waits for
+			// them, and the oracles time "still in progress" by what those loops have done (TaskDone runs on them in
+			// the unchanged code; a change that moves it to a worker goroutine is what these points are for)
+			if strings.HasPrefix(site, "lock:taskqueue/") {
+				var buf [4096]byte
+				if st := string(buf[:runtime.Stack(buf[:], false)]); strings.Contains(st, "Manager).run(") {
+					return
+				}
+			}
 			// (scenarios may want to know what a goroutine held at such a point was in the middle of)
 			in := ""
 			if w.LockYieldIn != nil {
